@@ -27,7 +27,11 @@ REGISTRY = dict(
           "(C19 Good/bracket_kept reused); LIVENESS with named hypothesis: with at most J jumps and C19's forced-bisection "
           "guard on the remaining steps (0 < t_k, t_{k+1} < 3 t_k) the run ends within steps+(J+1)(n+2) sweeps; the "
           "unconditional termination claim is refuted (Zeno: n jumps in one step for every n); steps whose bracket "
-          "touches 0 (the first step) are left to C19's unproved TerminatesAlways. Counterexample proved and replayed "
+          "touches 0 (the first step) are left to C19's unproved TerminatesAlways. Props/C18Term.lean removes the "
+          "t_{k+1} < 3 t_k restriction: on every step with 0 < t_k, t_{k+1} <= t_k 2^m, t_{k+1}-t_k < 2^n a search closes "
+          "within K+2 sweeps, K = n(2m+2) (C19Term), so with at most J jumps the run ends within steps+(J+1)(K+2) sweeps; "
+          "the liveness hypothesis is now: finitely many jumps, and the step in progress does not start at t = 0. "
+          "Counterexample proved and replayed "
           "on the real code: gap exactly 0 at a step boundary trips the BrentsRootFinder constructor assert (D10, "
           "KNOWN-FINDING), and that is the only way to trip it. Model tied to NoisyMPSBackendImpl by bit-exact event "
           "streams under adversarial tapes."),
@@ -41,6 +45,8 @@ REGISTRY = dict(
 
 PROP_MODULE = "EmuVerif.Props.C18"
 AUDIT = "Audit/C18.lean"
+TERM_MODULE = "EmuVerif.Props.C18Term"
+TERM_AUDIT = "Audit/C18Term.lean"
 KNOWN_CLASS = "C18-gap-zero-at-boundary-assert"
 D10_WITNESS = dict(n=2, times=[0.0, 10.0, 20.0, 30.0],
                    tape=[(1.0, 0.25, 1.0, 0), (0.5, 0.5, 1.0, 0), (0.25, 0.5, 1.0, 0), (0.9, 0.5, 1.0, 0)])
@@ -406,14 +412,18 @@ def check(rep: Report, tier: str, seed: int) -> None:
                 "(grid, tape) bit patterns")
     rep.assumptions = [
         "liveness hypothesis (named in the theorem): finitely many jumps; unconditional termination is refuted in Lean (zeno)",
-        "search length in steps whose bracket touches 0 (first step) or with t_{k+1} >= 3 t_k: C19 TerminatesAlways, not proved; "
-        "validated here by running the real class to convergence in every tape/physics run",
+        "search length in steps whose bracket touches 0 (first step): C19 TerminatesAlways, not proved; validated here by "
+        "running the real class to convergence in every tape/physics run (steps with 0 < t_k: C18Term.search_closes_pos)",
         "environment contract: random.uniform draws in [0,1]; post-jump norm passes the code's own isclose assert",
         "binary64 rounding is outside the theorems (same definitions over an ordered field); the correspondence is bit-exact",
         "local kernels (_evolve etc.) abstracted to events: C18 is about the stepping logic only",
     ]
     compat.install()
     lean_stage(rep, PROP_MODULE, AUDIT, thorough=(tier == "thorough"))
+    ob, cmd = list(rep.obligations), rep.checker_cmd
+    lean_stage(rep, TERM_MODULE, TERM_AUDIT, thorough=(tier == "thorough"))
+    rep.obligations = ob + [o for o in rep.obligations if o not in ob]
+    rep.checker_cmd = cmd + " ; " + rep.checker_cmd
     rng = seeded(seed * 7919 + 18)
     quick = tier == "quick"
     lines, pending = [], []
